@@ -1553,7 +1553,7 @@ def check_C13(tier, seed, replay=None):
 
     # a run that allocates without end must die as an out-of-memory crash of its own, not take the machine with it
     # (prlimit(1) of util-linux; a preexec_fn is not safe in a threaded parent)
-    memlimit = ["prlimit", "--as=%d" % (6 << 30)] if shutil.which("prlimit") else []
+    memlimit = ["prlimit", "--as=%d" % (2 << 30)] if shutil.which("prlimit") else []
 
     def one(job):
         k, kind, pth, fl, args = job
